@@ -56,6 +56,8 @@ Definition qn_strictly (lt : QN -> QN -> bool) (l : list QN) : bool :=
 
 Definition ill_posed_transform (tc : tcall (A:=QN)) : bool :=
   tc_periodic tc ||
+  (* data lacking, or having two, dimensions of the axis *)
+  negb (count_dims_on (tc_coords tc) (dims (tc_da tc)) =? 1) ||
   (String.eqb (tc_method tc) "conservative" &&
    (negb (memP Outer (map fst (tc_coords tc))) ||
     match tc_target tc with
